@@ -326,3 +326,33 @@ def tie(cases):
                 if obs != model[b["callkind"]]:
                     bad.append((c, b["i"], f"{b['callkind']}: observed class sequence {obs} but Model.CrashCore lists {model[b['callkind']]}"))
     return bad, compared, model
+
+def replay(path):
+    """re-executes one core-level history: every crash point of the call named in the trace (or of all calls)"""
+    victim, lines, point = 1, [], None
+    for l in open(path):
+        l = l.strip()
+        m = re.match(r"# crash point: call (\d+) .* tick (\d+)", l)
+        if m:
+            point = (int(m.group(1)), int(m.group(2)))
+        if not l or l.startswith("#"):
+            continue
+        if l.startswith("victim "):
+            victim = int(l.split()[1]); continue
+        lines.append(l)
+    c = {"id": os.path.basename(path), "victim": victim, "script": lines, "maxk": 0, "memk": 0}
+    run([c])
+    for b in c["base"]:
+        print(f"call {b['i']} {b['callkind']} `{b['cmd']}` ticks={b['ticks']} labels={b['labels']} pre={b['pre']} post={b['post']}")
+    bad = 0
+    for r in c["rows"] + c["memrows"]:
+        if point and (r["i"], r["k"]) != point:
+            continue
+        cls = r["class"]
+        bad += cls.split(":")[0] not in GOOD | SOFT
+        print(f"crash call={r['i']} tick={r['k']} label={r['label']} class={cls} mid={r['mid']} retry={r['retry']} later={r.get('later','-')} final={r.get('final','-')} end={r['end']}")
+    t, n, model = tie([c])
+    for _, i, what in t:
+        print("CORRESPONDENCE:", what)
+    print("verdict:", "property violated on the implementation" if bad else ("model/implementation disagree" if t else "ok"))
+    return 1 if (bad or t) else 0
